@@ -10,11 +10,11 @@ use crate::{
     error::Error,
     ff::{
         U128Conversions,
-        boolean_array::{BA3, BA8, BA32, BA64, BA112},
+        boolean_array::{BA3, BA8, BA16, BA32, BA64, BA112, BooleanArray},
     },
     protocol::ipa_prf::shuffle::{ShardedShuffle, Shuffleable},
     report::hybrid::{AggregateableHybridReport, IndistinguishableHybridReport},
-    secret_sharing::replicated::semi_honest::AdditiveShare as Replicated,
+    secret_sharing::replicated::{ReplicatedSecretSharing, semi_honest::AdditiveShare as Replicated},
     test_fixture::{TestWorld, TestWorldConfig, WithShards},
 };
 
@@ -29,6 +29,8 @@ pub enum RowType {
     Report,
     /// AggregateableHybridReport<BA8,BA3>: 3+8 = 11 significant bits packed into BA32
     AggReport,
+    /// IndistinguishableHybridReport<BA8,BA16>: value wider than the breakdown key (64+16+8 = 88 bits)
+    ReportWide,
 }
 
 impl RowType {
@@ -39,6 +41,7 @@ impl RowType {
             RowType::Ba112 => 112,
             RowType::Report => 75,
             RowType::AggReport => 11,
+            RowType::ReportWide => 88,
         }
     }
 }
@@ -49,7 +52,59 @@ pub struct ShufCfg {
     pub row: RowType,
 }
 
-fn build<S: Shuffleable>(vals: &[u128], seed: u64, mk: impl Fn(u128) -> S::Share) -> [Vec<S>; 3] {
+/// A row type of the shuffle with a *layout independent* plain form: rows are built from and read
+/// back as fields (plain bits: match key, then value, then breakdown key - a convention of this
+/// harness only), never through the packed `Shuffleable::Share`. How the code packs the fields
+/// into that share is its own business (covered, as a lossless round trip, by C09).
+pub trait Row: Shuffleable {
+    fn from_plain(l: u128, r: u128) -> Self;
+    fn plain(&self) -> (u128, u128);
+}
+macro_rules! plain_row {
+    ($t:ty) => {
+        impl Row for Replicated<$t> {
+            fn from_plain(l: u128, r: u128) -> Self {
+                ReplicatedSecretSharing::new(<$t>::truncate_from(l), <$t>::truncate_from(r))
+            }
+            fn plain(&self) -> (u128, u128) {
+                (ReplicatedSecretSharing::left(self).as_u128(), ReplicatedSecretSharing::right(self).as_u128())
+            }
+        }
+    };
+}
+plain_row!(BA32);
+plain_row!(BA64);
+plain_row!(BA112);
+impl<BK: BooleanArray + U128Conversions, V: BooleanArray + U128Conversions> Row for IndistinguishableHybridReport<BK, V> {
+    fn from_plain(l: u128, r: u128) -> Self {
+        let f = |x: u128| (BA64::truncate_from(x & u128::from(u64::MAX)), V::truncate_from((x >> 64) & ((1u128 << V::BITS) - 1)), BK::truncate_from((x >> (64 + V::BITS)) & ((1u128 << BK::BITS) - 1)));
+        let (a, b) = (f(l), f(r));
+        Self { match_key: ReplicatedSecretSharing::new(a.0, b.0), value: ReplicatedSecretSharing::new(a.1, b.1), breakdown_key: ReplicatedSecretSharing::new(a.2, b.2) }
+    }
+    fn plain(&self) -> (u128, u128) {
+        let g = |mk: BA64, v: V, bk: BK| mk.as_u128() | (v.as_u128() << 64) | (bk.as_u128() << (64 + V::BITS));
+        (
+            g(ReplicatedSecretSharing::left(&self.match_key), ReplicatedSecretSharing::left(&self.value), ReplicatedSecretSharing::left(&self.breakdown_key)),
+            g(ReplicatedSecretSharing::right(&self.match_key), ReplicatedSecretSharing::right(&self.value), ReplicatedSecretSharing::right(&self.breakdown_key)),
+        )
+    }
+}
+impl<BK: BooleanArray + U128Conversions, V: BooleanArray + U128Conversions> Row for AggregateableHybridReport<BK, V> {
+    fn from_plain(l: u128, r: u128) -> Self {
+        let f = |x: u128| (V::truncate_from(x & ((1u128 << V::BITS) - 1)), BK::truncate_from((x >> V::BITS) & ((1u128 << BK::BITS) - 1)));
+        let (a, b) = (f(l), f(r));
+        Self { match_key: (), value: ReplicatedSecretSharing::new(a.0, b.0), breakdown_key: ReplicatedSecretSharing::new(a.1, b.1) }
+    }
+    fn plain(&self) -> (u128, u128) {
+        let g = |v: V, bk: BK| v.as_u128() | (bk.as_u128() << V::BITS);
+        (
+            g(ReplicatedSecretSharing::left(&self.value), ReplicatedSecretSharing::left(&self.breakdown_key)),
+            g(ReplicatedSecretSharing::right(&self.value), ReplicatedSecretSharing::right(&self.breakdown_key)),
+        )
+    }
+}
+
+fn build<S: Row>(vals: &[u128], seed: u64, mk: impl Fn(u128) -> u128) -> [Vec<S>; 3] {
     let mut rng = StdRng::seed_from_u64(seed);
     let mut out: [Vec<S>; 3] = [vec![], vec![], vec![]];
     for v in vals {
@@ -58,7 +113,7 @@ fn build<S: Shuffleable>(vals: &[u128], seed: u64, mk: impl Fn(u128) -> S::Share
         let s3 = v ^ s1 ^ s2;
         let sh = [s1, s2, s3];
         for h in 0..3 {
-            out[h].push(S::new(mk(sh[h]), mk(sh[(h + 1) % 3])));
+            out[h].push(S::from_plain(mk(sh[h]), mk(sh[(h + 1) % 3])));
         }
     }
     out
@@ -87,7 +142,7 @@ async fn run_in<const N: usize>(cfg: &ShufCfg, vals: &[u128]) -> RunResult {
                 for (s, (ctx, rows)) in hc.into_iter().zip(hrows.into_iter()).enumerate() {
                     futs.push((h, s, async move {
                         let r = ctx.sharded_shuffle(rows).await?;
-                        Ok::<_, Error>(r.iter().map(|x| (Shuffleable::left(x).as_u128(), Shuffleable::right(x).as_u128())).collect::<Vec<(u128, u128)>>())
+                        Ok::<_, Error>(r.iter().map(Row::plain).collect::<Vec<(u128, u128)>>())
                     }));
                 }
             }
@@ -97,11 +152,12 @@ async fn run_in<const N: usize>(cfg: &ShufCfg, vals: &[u128]) -> RunResult {
     macro_rules! by_row {
         ($ctxs:expr) => {
             match cfg.row {
-                RowType::Ba32 => go!($ctxs, Replicated<BA32>, |v| BA32::truncate_from(v)),
-                RowType::Ba64 => go!($ctxs, Replicated<BA64>, |v| BA64::truncate_from(v)),
-                RowType::Ba112 => go!($ctxs, Replicated<BA112>, |v| BA112::truncate_from(v)),
-                RowType::Report => go!($ctxs, IndistinguishableHybridReport<BA8, BA3>, |v| BA112::truncate_from(v & mask(75))),
-                RowType::AggReport => go!($ctxs, AggregateableHybridReport<BA8, BA3>, |v| BA32::truncate_from(v & mask(11))),
+                RowType::Ba32 => go!($ctxs, Replicated<BA32>, |v| v & mask(32)),
+                RowType::Ba64 => go!($ctxs, Replicated<BA64>, |v| v & mask(64)),
+                RowType::Ba112 => go!($ctxs, Replicated<BA112>, |v| v & mask(112)),
+                RowType::Report => go!($ctxs, IndistinguishableHybridReport<BA8, BA3>, |v| v & mask(75)),
+                RowType::ReportWide => go!($ctxs, IndistinguishableHybridReport<BA8, BA16>, |v| v & mask(88)),
+                RowType::AggReport => go!($ctxs, AggregateableHybridReport<BA8, BA3>, |v| v & mask(11)),
             }
         };
     }
@@ -136,7 +192,7 @@ fn multiset(v: impl IntoIterator<Item = u128>) -> BTreeMap<u128, usize> {
 }
 
 fn gen_cfg(env: &Env, src: &mut Src<'_>, malicious: Option<bool>) -> (ShufCfg, Vec<u128>, Vec<String>) {
-    let row = src.pick(&[RowType::Ba32, RowType::Ba64, RowType::Ba112, RowType::Report, RowType::AggReport]);
+    let row = src.pick(&[RowType::Ba32, RowType::Ba64, RowType::Ba112, RowType::Report, RowType::AggReport, RowType::ReportWide]);
     let shards = src.pick(&[1usize, 2, 3, 5]);
     let malicious = malicious.unwrap_or_else(|| src.bool());
     let max = if env.thorough() { 2000 } else { 60 };
@@ -186,6 +242,7 @@ fn gen_cfg(env: &Env, src: &mut Src<'_>, malicious: Option<bool>) -> (ShufCfg, V
         timeout: Duration::from_secs(120),
         tamper: None,
         more_tampers: vec![],
+        grace_after_other_failure: None,
         stop_on_error_of: 0b111,
     };
     (ShufCfg { inner, row }, vals, labels)
@@ -328,7 +385,7 @@ fn tampered(env: &Env, src: &mut Src<'_>) -> CaseResult {
 pub fn subs(_env: &Env) -> Vec<Sub> {
     vec![
         Sub::random("honest", 2200, 6000, 150_000, honest,
-            "row types {BA32, BA64, BA112, IndistinguishableHybridReport<BA8,BA3>, AggregateableHybridReport<BA8,BA3>} x shards {1,2,3,5} x total rows 0..60 (thorough 0..2000) incl. 0, 1, fewer rows than shards, duplicates x assignment {round-robin, random, all-on-one-shard, blocks} x {semi-honest, malicious} x runtime; oracle: on every shard the three helpers hold the same number of consistently shared rows and the multiset over all shards equals the input multiset; non-trivial = >= 2 distinct rows and >= 2 non-empty input shards (or a single shard)")
+            "row types {BA32, BA64, BA112, IndistinguishableHybridReport<BA8,BA3> and <BA8,BA16>, AggregateableHybridReport<BA8,BA3>} (report rows are built from and read back as fields, independent of how the code packs them into the shuffle share) x shards {1,2,3,5} x total rows 0..60 (thorough 0..2000) incl. 0, 1, fewer rows than shards, duplicates x assignment {round-robin, random, all-on-one-shard, blocks} x {semi-honest, malicious} x runtime; oracle: on every shard the three helpers hold the same number of consistently shared rows and the multiset over all shards equals the input multiset; non-trivial = >= 2 distinct rows and >= 2 non-empty input shards (or a single shard)")
         .shrink_iters(40),
         Sub::random("tampered", 2200, 3000, 100_000, tampered,
             "malicious shuffle; honest baseline gives the channel catalogue; one length-preserving edit (bit flip, xor, replace, additive) on one chunk of one channel of the corrupt helper, chosen by shuffle step first (transfer x/y, transfer c, cardinality, tag generation multiplies, verification hashes, ...); accept iff an honest helper errs, or no output, or the honest helpers' rows still reconstruct to the input multiset")
